@@ -26,6 +26,18 @@ CHECKS = {
          "Every class hierarchy of depth 1-3 with per-class choices of method m (absent/plain/super call/super value), n (calls self.m), four constructor forms, probed on instances of the two most derived classes with calls, bound values, arities, unknown members, shadowing fields, type/derives; static methods and Self; local classes; every non-class superclass; construction rules. Run on the real VM and compared with M-eval.",
          "Trusts M-eval's class model (Appendix A). Bounded: depth 3, two method names.",
          "5/C07"),
+ "C14": ("exhaustive enumeration of import graphs (configurations) vs the reference evaluator M-eval with a module table",
+         "All 4096 import graphs over {main,a,b,c} (every edge, self-loop and main edge independently), every import guarded and followed by a use, identity/isolation/built-in probes, plus placement variants (in functions called 0/1/2 times, missing/uncompilable modules caught/uncaught/aliased, directory paths, a 3-cycle); each run on the real VM with a module loader serving the generated sources and compared with M-eval.",
+         "Trusts M-eval's module model. A module body that throws is outside the alphabet (X). Bounded: 3 modules besides main.",
+         "5/C14"),
+ "C17": ("bounded-exhaustive program enumeration vs M-eval (class, text, kind, full trace) + caught==uncaught differential on the implementation + stray-token line enumeration",
+         "Every call chain of depth <=3/4 over 8 link kinds (function, method, static, lambda, constructor, map/reduce callbacks through the library, fiber) with 12 failing statements at the bottom (in place, in a module function, as a module body), one statement per line: the uncaught report's class, message, ErrorKind and every trace entry must equal M-eval's; the caught variant must see the same class. 26 failing statements (incl. host natives of every ErrorKind) are checked caught==uncaught on the implementation itself; a stray token before every statement of a multi-line program must be reported at its own line.",
+         "Message texts of built-in errors come from the caught==uncaught differential, not from a table. Exceptions passing through finally blocks are outside C17's alphabet.",
+         "5/C17"),
+ "C18": ("bounded-exhaustive program enumeration vs M-eval (model sequences; index-based vec iteration)",
+         "for loops over every vec/tuple of length 0-3, every range with bounds in [-2,3], every string up to 2/3 chars over a 1-4-byte alphabet, user iterators; break/continue/return at every position; nested and shared iterators; every map/filter chain to depth 2/3 with 5 callbacks, reduce, collect; protocol violations; vec mutation at every position. All on the real VM vs M-eval (which runs the library's own Iter/MapIter/FilterIter definitions as AST).",
+         "Trusts M-eval's iteration model (Appendix A).",
+         "5/C18"),
 }
 NOT_YET = "check not built yet in this revision of /verif (work in progress; see DESIGN.md section 10)"
 
